@@ -5,6 +5,7 @@ import (
 	"context"
 	"errors"
 	"fmt"
+	"io"
 	"net"
 	"runtime"
 	"sync"
@@ -54,6 +55,8 @@ type concCase struct {
 	DevSeed uint64   `json:"dev_seed"`
 	// CloseDelayUs: the transport's Close takes this long (widens the window in which Close holds the client's lock)
 	CloseDelayUs int `json:"close_delay_us,omitempty"`
+	// FlushDelayUs (kind serial-flush): the port's Flush takes this long
+	FlushDelayUs int `json:"flush_delay_us,omitempty"`
 }
 
 func framingOf(kind string) spec.Framing {
@@ -125,7 +128,7 @@ func runConc(c concCase) harness.Result {
 		defer runtime.GOMAXPROCS(old)
 	}
 	f := framingOf(c.Kind)
-	mon := &xport.Monitor{F: f, Dev: device.New(c.DevSeed), Serial: c.Kind == "serial", CloseDelay: time.Duration(c.CloseDelayUs) * time.Microsecond}
+	mon := &xport.Monitor{F: f, Dev: device.New(c.DevSeed), Serial: isSerial(c.Kind), CloseDelay: time.Duration(c.CloseDelayUs) * time.Microsecond}
 	// per-request plan: looked up by arrival index -> we do not know which call arrives n-th, so derive from the request itself
 	plans := map[uint16]call{}
 	for w, calls := range c.Workers {
@@ -145,8 +148,14 @@ func runConc(c concCase) harness.Result {
 	var do func(context.Context, packet.Request) (packet.Response, error)
 	var closeFn func() error
 	var connectFn func() error
-	if c.Kind == "serial" {
-		sc := modbus.NewSerialClient(serialPort{mon.NewConn()}, modbus.WithSerialReadTimeout(2*time.Second))
+	if isSerial(c.Kind) {
+		sp := serialPort{mon.NewConn()}
+		var port io.ReadWriteCloser = sp
+		if c.Kind == "serial-flush" {
+			port = serialPortFlusher{sp}
+			mon.FlushDelay = time.Duration(c.FlushDelayUs) * time.Microsecond
+		}
+		sc := modbus.NewSerialClient(port, modbus.WithSerialReadTimeout(2*time.Second))
 		do, closeFn = sc.Do, sc.Close
 		connectFn = func() error { return nil }
 	} else {
@@ -341,16 +350,23 @@ func expectedReply(f spec.Framing, seed uint64, sr spec.Req, arrivals []spec.Req
 
 type serialPort struct{ c *xport.ArrivalConn }
 
+// serialPortFlusher additionally offers the optional Flush operation, which the serial client calls after every exchange.
+type serialPortFlusher struct{ serialPort }
+
+func (s serialPortFlusher) Flush() error { return s.c.Flush() }
+
+func isSerial(kind string) bool { return kind == "serial" || kind == "serial-flush" }
+
 func (s serialPort) Read(p []byte) (int, error)  { return s.c.Read(p) }
 func (s serialPort) Write(p []byte) (int, error) { return s.c.Write(p) }
 func (s serialPort) Close() error                { return s.c.Close() }
 
 func genConc(t *rapid.T) concCase {
 	c := concCase{DevSeed: rapid.Uint64().Draw(t, "dev_seed"), Procs: rapid.SampledFrom([]int{2, 16}).Draw(t, "procs")}
-	c.Kind = rapid.SampledFrom([]string{"tcp", "tcp", "tcp", "rtu-net", "rtu-net", "serial"}).Draw(t, "kind")
+	c.Kind = rapid.SampledFrom([]string{"tcp", "tcp", "tcp", "rtu-net", "rtu-net", "serial", "serial-flush"}).Draw(t, "kind")
 	n := rapid.IntRange(2, 8).Draw(t, "workers")
 	maxCalls := 6
-	if c.Kind == "serial" {
+	if isSerial(c.Kind) {
 		n = rapid.IntRange(2, 4).Draw(t, "workers_serial")
 		maxCalls = 2
 	}
@@ -371,7 +387,7 @@ func genConc(t *rapid.T) concCase {
 				}
 				if rapid.IntRange(0, 3).Draw(t, "cancellable") == 0 {
 					cl.CancelUs = rapid.SampledFrom([]int{1, 100, 400, 1000, 2500}).Draw(t, "cancel_us")
-					if c.Kind == "serial" {
+					if isSerial(c.Kind) {
 						// the serial client sleeps 30 ms after its write before it looks at the context again
 						cl.CancelUs = rapid.SampledFrom([]int{1, 2000, 20000, 45000}).Draw(t, "cancel_us_serial")
 					}
@@ -382,10 +398,13 @@ func genConc(t *rapid.T) concCase {
 		}
 		c.Workers = append(c.Workers, calls)
 	}
+	if c.Kind == "serial-flush" {
+		c.FlushDelayUs = rapid.SampledFrom([]int{0, 100, 500, 2000}).Draw(t, "flush_delay")
+	}
 	if rapid.IntRange(0, 2).Draw(t, "closers") == 0 {
 		k := rapid.IntRange(1, 3).Draw(t, "nclosers")
 		ops := []string{"close", "connect", "close-connect"}
-		if c.Kind == "serial" {
+		if isSerial(c.Kind) {
 			ops = []string{"close"} // the serial client has no Connect
 		}
 		for i := 0; i < k; i++ {
